@@ -129,6 +129,18 @@ def generate(rng, tier):
               (x0 + 1, y0 + 1, x0 + 2, y0 + 2), (x0 - 9, y0 - 9, x0, y0), (x0 - 9, y0 - 9, x0 - F(1, 8), y0 + 3)]
         for q in rng.sample(qs, min(len(qs), nq + 1)):
             cases.append({"boxes": bs, "q": q, "exact": rng.random() < 0.6, "family": "frame-equal-to-the-whole-extent"})
+    # a drawing with detail at every scale: 56 .. 72 small boxes at 10^k (or 16^k) along a diagonal - every split peels off only the
+    # one or two largest, so the tree is 28 .. 36 levels deep and the smallest boxes sit at the bottom; queries at every scale
+    for _ in range(max(2, nl // 150)):
+        m = rng.choice([56, 64, 72]); base = rng.choice([10, 10, 16]); inv = False
+        def at(k): return F(1, base ** k) if inv else F(base ** k)
+        bs = [(k, (at(k), at(k), at(k) * F(3, 2), at(k) * F(5, 4))) for k in range(m)]
+        if rng.random() < 0.5: rng.shuffle(bs)
+        ks = [0, 1, 2, m - 1, m // 2, rng.randrange(m), rng.randrange(m)]
+        for k in ks[:nq + 2]:
+            q = rng.choice([(at(k), at(k), at(k) * F(3, 2), at(k) * F(3, 2)), (at(k) * F(11, 10), at(k) * F(11, 10), at(k) * F(12, 10), at(k) * F(12, 10)),
+                            (F(0), F(0), at(k) * 2, at(k) * 2)])
+            cases.append({"boxes": bs, "q": q, "exact": rng.random() < 0.5, "family": "detail-at-every-scale/%d-boxes" % m})
     # an index is built once and queried many times: 1-4 earlier queries on the same index (whole extent, halves and quadrants of the
     # extent, single boxes; the caller keeps and edits the sets it was given) must not change the answer to the judged query
     for _ in range(nl):
